@@ -347,6 +347,7 @@ func checkC12(c *Ctx) {
 	c.check("writer.delayed-exclusive-open", w.Name, w.Decl.Pos(), okW, det)
 	checkYAMLBytesBinary(c)
 	c12TomlKeyPrefix(c)
+	c12OutputOnlyToWriter(c)
 
 	jsonImporterKeyRule(c)
 	c.expect("registry.data-encoding-concrete", 6)
@@ -470,4 +471,36 @@ func c12TomlKeyPrefix(c *Ctx) {
 		})
 	}
 	c.expect("toml.key-prefix-includes-separator", 3)
+}
+
+// c12OutputOnlyToWriter: everything an encoder emits belongs to the output it
+// was opened for (file, cfg.Out, or stdout when the file name is "-"). A
+// fmt.Print* inside the encoder writes to the process's stdout instead: the
+// text is missing from the file (e.g. the `// ---` separator between the
+// values of a multi-value CUE export, whose absence fuses the values) and
+// pollutes stdout.
+func c12OutputOnlyToWriter(c *Ctx) {
+	p := c.pkg("internal/encoding")
+	nW := 0
+	k := 0
+	for _, f := range c.funcs(p) {
+		info := f.Info()
+		ast.Inspect(f.Body, func(x ast.Node) bool {
+			call, ok := x.(*ast.CallExpr)
+			if !ok {
+				return true
+			}
+			switch calleeName(info, call) {
+			case "fmt.Fprintf", "fmt.Fprintln", "fmt.Fprint":
+				nW++
+			case "fmt.Print", "fmt.Println", "fmt.Printf":
+				k++
+				c.check("writer.output-only-to-writer", fmt.Sprintf("%s#print%d", f.Name, k), call.Pos(), false,
+					"the encoder must write through its output writer (fmt.Fprint*(w, …)), never with "+exprString(call.Fun)+": the text goes to the process's stdout and is missing from the output file")
+			}
+			return true
+		})
+	}
+	c.check("writer.output-only-to-writer", "internal/encoding#writer-calls", 0, nW >= 1,
+		fmt.Sprintf("the scan saw %d fmt.Fprint* calls in internal/encoding (expected at least one: the rule must see the encoder's writes)", nW))
 }
